@@ -218,6 +218,19 @@ Theorem C19_tight_enabled_implies_root_refuted : exists env args,
   t_enabled (run_args env tinit0 args) = true /\ t_root (run_args env tinit0 args) = [].
 Proof. exact tight_enabled_implies_root_refuted. Qed.
 
+(* ... and holds for the flow with notes/fix_C19_6.diff (IsFileTransferEnabled() = flag && a root directory was accepted;
+   [t_effective true]): after any command line, transfer is on only with a root that is the (slash-stripped) name of an
+   openable directory - the user's home or a -ftproot argument; an explicit "-ftproot /" keeps working *)
+Theorem C19_tight_enabled_implies_root_fixed : forall env args,
+  t_effective true (run_args env tinit0 args) = true ->
+  exists p, dir_ok env p = true /\ 0 < Zlength p /\ t_root (run_args env tinit0 args) = strip_slash p.
+Proof. exact tight_enabled_implies_root_fixed. Qed.
+
+(* -disablefiletransfer is final in both flows (fx = false: the tree, fx = true: with fix_C19_6) *)
+Theorem C19_tight_effective_disable_is_final : forall fx env st rest,
+  t_effective fx (run_args env st (s_disable :: rest)) = false.
+Proof. exact tight_effective_disable_is_final. Qed.
+
 (* with a usable home directory other than "/" the initial root is that directory *)
 Theorem C19_tight_root_nonempty_with_home : forall env c h,
   pw_home env = Some (c :: h) -> dir_ok env (c :: h) = true -> Zlength (c :: h) <= C19_PATH_MAX - 1 ->
